@@ -122,26 +122,58 @@ pub fn dhw_case(max_steps: usize) -> BoxedStrategy<DhwCase> {
                     any::<bool>(),
                     proptest::option::weighted(0.3, cogen(n)),
                 ),
+                // long series: about one case in 40 is tiled to 365 or 8 760 steps
+                prop_oneof![78 => Just(0usize), 1 => Just(365usize), 1 => Just(8760usize)],
             )
         })
-        .prop_map(|((n, suppliers, aux, pv, other_el, other_nonel, nepb), (red1, red2, loc, k, lm, demand, split_demand, cogen))| DhwCase {
-            n,
-            suppliers,
-            aux,
-            pv,
-            other_el,
-            other_nonel,
-            nepb,
-            red1,
-            red2,
-            loc: loc.to_string(),
-            k,
-            lm,
-            demand,
-            split_demand,
-            cogen,
+        .prop_map(|((n, suppliers, aux, pv, other_el, other_nonel, nepb), (red1, red2, loc, k, lm, demand, split_demand, cogen), long)| {
+            let mut c = DhwCase { n, suppliers, aux, pv, other_el, other_nonel, nepb, red1, red2, loc: loc.to_string(), k, lm, demand, split_demand, cogen };
+            c.tile((long / n).max(1));
+            c
         })
         .boxed()
+}
+
+impl DhwCase {
+    /// every per-step vector repeated r times (the pattern of the generated steps recurs; the length changes)
+    pub fn tile(&mut self, r: usize) {
+        if r <= 1 {
+            return;
+        }
+        let t = |v: &mut Vec<u32>| *v = v.repeat(r);
+        for s in self.suppliers.iter_mut() {
+            match s {
+                Supplier::Joule { el } | Supplier::HeatPump { el, .. } => t(el),
+                Supplier::Solar { q } | Supplier::Red { q, .. } => t(q),
+                Supplier::Boiler { input, .. } => t(input),
+                Supplier::Biomass { input, other, .. } => {
+                    t(input);
+                    if let Some(o) = other {
+                        t(o);
+                    }
+                }
+            }
+        }
+        for v in [&mut self.aux, &mut self.pv].into_iter().flatten() {
+            t(v);
+        }
+        if let Some((_, v)) = &mut self.other_el {
+            t(v);
+        }
+        if let Some((_, _, v)) = &mut self.other_nonel {
+            t(v);
+        }
+        if let Some((_, v)) = &mut self.nepb {
+            t(v);
+        }
+        if let Some(cg) = &mut self.cogen {
+            t(&mut cg.el);
+            for (_, v) in cg.fuels.iter_mut() {
+                t(v);
+            }
+        }
+        self.n *= r;
+    }
 }
 
 fn cv(v: &[u32]) -> Vec<f32> {
